@@ -12,6 +12,8 @@ pub const STAGE_KEY: u16 = 12;
 pub const STAGE_CMP: u16 = 13;
 pub const STAGE_EACH: u16 = 14;
 pub const STAGE_IDENT: u16 = 15;
+/// `Clone::clone` of the item type (the `.cloned()` source adaptor)
+pub const STAGE_CLONE: u16 = 20;
 /// `next` of the iterator returned by the flat_map closure of stage s is stage s + INNER
 pub const INNER: u16 = 100;
 
@@ -247,6 +249,8 @@ pub struct Scenario {
     pub sched_seed: u64,
     pub faults: Vec<Fault>,
     pub starve_release: u64,
+    /// closures are yield points (and are logged) only every 2^quiet-th call: for the sampled large inputs
+    pub quiet: u8,
 }
 
 // ---------------------------------------------------------------------------------------------
@@ -370,8 +374,13 @@ impl Scenario {
     /// (the eight eager transformation sites): returns the positions p such that applying op p collects
     /// ops[..p] first.
     pub fn eager_positions(&self) -> Vec<usize> {
+        self.eager_sites().into_iter().map(|x| x.0).collect()
+    }
+
+    /// (position, name of the eager site)
+    pub fn eager_sites(&self) -> Vec<(usize, &'static str)> {
         // state of the type after each op
-        #[derive(Clone, Copy, PartialEq)]
+        #[derive(Clone, Copy, PartialEq, Debug)]
         enum T {
             Empty,
             Map,
@@ -420,12 +429,37 @@ impl Scenario {
                 (T::FlatFil, Op::FilterMap { .. }) => (T::FMap, true),
             };
             if eager {
-                out.push(i);
+                let name = match (t, op) {
+                    (T::Fil, _) => "ParFilter::flat_map",
+                    (T::MapFil, _) => "ParMapFilter::flat_map",
+                    (T::FMap, _) => "ParFilterMap::flat_map",
+                    (T::FMapFil, _) => "ParFilterMapFilter::flat_map",
+                    (T::Flat, _) => "ParFlatMap::filter_map",
+                    (T::FlatFil, Op::Map { .. }) => "ParFlatMapFilter::map",
+                    (T::FlatFil, Op::FlatMap { .. }) => "ParFlatMapFilter::flat_map",
+                    (T::FlatFil, _) => "ParFlatMapFilter::filter_map",
+                    _ => "?",
+                };
+                out.push((i, name));
             }
             t = nt;
         }
         out
     }
+}
+
+/// large inputs are written as `#len:seed`
+pub fn spec_vals(n: usize, seed: u64) -> Vec<i64> {
+    (0..n).map(|i| (mix(seed, i as u64, 0x7A15) % 13) as i64 - 4).collect()
+}
+
+fn compact_vals(vals: &[i64]) -> Option<String> {
+    if vals.len() < 400 {
+        return None;
+    }
+    // the seed is recoverable from the first elements only by search; large inputs are always generated with
+    // a seed below 64
+    (0..64u64).find(|sd| spec_vals(vals.len(), *sd) == vals).map(|sd| format!("#{}:{}", vals.len(), sd))
 }
 
 // ---------------------------------------------------------------------------------------------
@@ -602,7 +636,10 @@ impl Scenario {
         let mut parts = vec![];
         parts.push(format!("seed={}", self.seed));
         parts.push(format!("src={}", self.src.name()));
-        parts.push(format!("vals={}", self.vals.iter().map(|x| x.to_string()).collect::<Vec<_>>().join(",")));
+        match compact_vals(&self.vals) {
+            Some(c) => parts.push(format!("vals={}", c)),
+            None => parts.push(format!("vals={}", self.vals.iter().map(|x| x.to_string()).collect::<Vec<_>>().join(","))),
+        }
         parts.push(format!("ops={}", self.ops.iter().map(enc_op).collect::<Vec<_>>().join("|")));
         parts.push(format!(
             "nt={}",
@@ -618,6 +655,7 @@ impl Scenario {
         parts.push(format!("avail={}", self.avail));
         parts.push(format!("sched={}", self.sched_seed));
         parts.push(format!("release={}", self.starve_release));
+        parts.push(format!("quiet={}", self.quiet));
         parts.push(format!(
             "faults={}",
             self.faults
@@ -647,6 +685,7 @@ impl Scenario {
             sched_seed: 0,
             faults: vec![],
             starve_release: 0,
+            quiet: 0,
         };
         for part in s.trim().split(';') {
             let (k, v) = part.split_once('=')?;
@@ -654,7 +693,10 @@ impl Scenario {
                 "seed" => scn.seed = v.parse().ok()?,
                 "src" => scn.src = Src::parse(v)?,
                 "vals" => {
-                    scn.vals = if v.is_empty() {
+                    scn.vals = if let Some(spec) = v.strip_prefix('#') {
+                        let (n, sd) = spec.split_once(':')?;
+                        spec_vals(n.parse().ok()?, sd.parse().ok()?)
+                    } else if v.is_empty() {
                         vec![]
                     } else {
                         v.split(',').map(|x| x.parse().ok()).collect::<Option<_>>()?
@@ -685,6 +727,7 @@ impl Scenario {
                 "avail" => scn.avail = v.parse().ok()?,
                 "sched" => scn.sched_seed = v.parse().ok()?,
                 "release" => scn.starve_release = v.parse().ok()?,
+                "quiet" => scn.quiet = v.parse().ok()?,
                 "faults" => {
                     for x in v.split(',').filter(|x| !x.is_empty()) {
                         let (st, tr) = x.split_once(':')?;
